@@ -115,3 +115,39 @@ def tlc_signsupport(chk):
         chk.violation("model:signsupport:%s" % r.violated, "SignSupport abstraction violates its own laws", {"tlc": r.out[-1200:]})
     elif not r.ok:
         chk.machinery("TLC failed on SignSupportMC: %s" % r.error)
+
+
+def replay_record(path, module="SignSupportTrace", cfg="SignSupportTrace.cfg"):
+    """./check <id> --replay <file>: a violation file of a trace clause holds the recorded observation; it is judged again by the trace
+    specification alone (exit status 1 = the specification rejects the record).  Other violation files are printed."""
+    import shutil
+    with open(path) as fp:
+        d = json.load(fp)
+    rec = (d.get("replay") or {}).get("record")
+    print(json.dumps({k: v for k, v in d.items() if k != "replay"}, indent=1))
+    if not isinstance(rec, dict) or "kind" not in rec:
+        print(json.dumps(d.get("replay"), indent=1, default=str)[:6000])
+        print("(no recorded trace record in this file: nothing to re-judge)")
+        return 0
+    work = common.scratch_dir("replay")
+    try:
+        one = os.path.join(work, "one.ndjson")
+        rec = dict(rec, id=0)
+        with open(one, "w") as fp:
+            fp.write(json.dumps(rec) + "\n")
+        r = common.run_tlc(module, cfg, workers=1, timeout=600, env={"TRACE_FILE": one})
+        verdicts = [json.loads(p) for p in r.prints]
+        done = [v for v in verdicts if v.get("done")]
+        rejected = [v for v in verdicts if not v.get("done")]
+        print("record: %s" % json.dumps({k: v for k, v in rec.items() if k not in ("inp", "dis", "en", "scan")})[:3000])
+        if not done:
+            print("MACHINERY-FAILURE trace validation did not finish: %s" % (r.error or r.out[-400:]))
+            return 2
+        if rejected:
+            print("VIOLATION property=%s replay=%s" % (d.get("property"), path))
+            print("  what: %s rejects the recorded observation: %s" % (module, json.dumps(rejected[0])[:500]))
+            return 1
+        print("the recorded observation satisfies every clause")
+        return 0
+    finally:
+        shutil.rmtree(work, ignore_errors=True)
